@@ -2,6 +2,7 @@ SPECIFICATION GSpec
 CONSTANTS
   Kinds = {"d", "ad", "r", "adc"}
   MaxLen = 2
+  Hooks = {"none"}
   FaultModes = {"ew"}
   Depth = 12
   MaxStarts = 2
